@@ -286,6 +286,8 @@ func c10Run(c *Ctx, cs c10Case) {
 		c.Res.Count("outcome:panic (C07)")
 		return
 	}
+	c10Accepts(c, cs, map[string]any{"op": "conv.accepts", "kind": fld.Kind, "boundInConfig": c10BaseName(fld.Type) == "Date", "hasFragments": false, "onlySpread": false,
+		"structRefs": cs.StructRefs, "optional": cs.Optional, "node": cs.NodeDir, "forDir": cs.ForDir, "opDir": cs.OpDir}, out.Err, fail)
 	if out.Err != nil {
 		c.Res.Count("outcome:rejected (not a documented combination)")
 		c10Rejected(cs, out.Err)
@@ -446,6 +448,13 @@ func c10RunVar(c *Ctx, cs c10Case, vr c10Var, fail func(kind, class, what string
 		c.Res.Count("outcome:panic (C07)")
 		return
 	}
+	inFields := []any{}
+	if vr.Kind == "input" {
+		// input In { a: String, b: Int!, c: In }
+		inFields = []any{map[string]any{"nonNull": false}, map[string]any{"nonNull": true}, map[string]any{"nonNull": false}}
+	}
+	c10Accepts(c, cs, map[string]any{"op": "conv.accepts", "isVariable": true, "kind": vr.Kind, "nonNull": strings.HasSuffix(vr.Decl, "!"), "boundInConfig": c10BaseName(vr.Type) == "Date",
+		"inputFields": inFields, "structRefs": cs.StructRefs, "optional": cs.Optional, "node": cs.NodeDir, "opDir": cs.OpDir}, out.Err, fail)
 	if out.Err != nil {
 		c.Res.Count("outcome:rejected (not a documented combination)")
 		c10Rejected(cs, out.Err)
@@ -489,4 +498,32 @@ func c10Rejected(cs c10Case, err error) {
 		msg = msg[:i]
 	}
 	fmt.Fprintf(os.Stderr, "C10REJ\t%s\t%s\n", b, msg)
+}
+
+func c10BaseName(t map[string]any) string {
+	for {
+		if e, ok := t["elem"].(map[string]any); ok {
+			t = e
+			continue
+		}
+		n, _ := t["name"].(string)
+		return n
+	}
+}
+
+// c10Accepts: correspondence of the generator's accept/reject decision with the applicability table of
+// Model/DirApply.lean (validate() of genqlient_directive.go and the input-object checks of convert.go).  A documented
+// combination that is refused, or an undocumented one that is accepted, is a finding either way.
+func c10Accepts(c *Ctx, cs c10Case, req map[string]any, err error, fail func(kind, class, what string, impl, model any)) {
+	m := c.Model(req)
+	want, _ := m["accepts"].(bool)
+	c.Res.Count("accept-model-compared")
+	if want == (err == nil) {
+		return
+	}
+	if want {
+		fail("violation", "documented-combination-rejected", fmt.Sprintf("the options %v / for %v / operation %v are applicable here by the documented rules (model verdict %v), but the generator refuses them: %v", cs.NodeDir, cs.ForDir, cs.OpDir, m["verdict"], firstLine(err.Error())), firstLine(err.Error()), m)
+	} else {
+		fail("mismatch", "accept-model", fmt.Sprintf("the model refuses the options %v / for %v / operation %v (%v), the generator accepts them", cs.NodeDir, cs.ForDir, cs.OpDir, m["verdict"]), nil, m)
+	}
 }
